@@ -14,6 +14,7 @@ import BB.Proofs.DictEq
 import BB.Model.Tools
 import BB.Proofs.Sweep
 import BB.Properties.C09
+import BB.Properties.C05
 import BB.Proofs.G5Sweep
 import BB.Proofs.G5Repeat
 import BB.Proofs.G5Values
@@ -768,5 +769,25 @@ example :
 /-- the hypothesis of `makeVarying_forge` is satisfiable: the swept sequence forges -/
 example : ((makeVaryingSequence exBase [3, 3, 3, 3] exVars).bind (fun s => s.forge true true false)).map List.length =
     .ok 2 := by decide +kernel
+
+/-! ### which swept 'duration' values are accepted (regenerated guard) -/
+
+/-- A swept 'duration' value is applied by `BluePrint.changeDuration`; it is accepted exactly when
+    it is a strictly positive number of at least ONE sample period (the forger then needs
+    `round(d*SR) >= 2`): values between one and a half and two sample periods keep the element
+    valid and are swept, not refused.  This pins the regenerated guard `Gen.durSubSample` inside
+    C17's own obligations (a stricter guard in the source breaks this theorem, and the check then
+    searches for the refused sweep with the last known good kernels). -/
+theorem sweep_duration_value_accepted_iff (b : BP) (name : String) (dur : Val) (all : Bool) :
+    (b.changeDuration name dur all).err = none ↔
+      ∃ d, dur = .num d ∧ b.names.contains (b.targets name all).1 = true ∧ 0 < d ∧
+        (∀ r, b.SR = .num r → 1 ≤ d * r) :=
+  C05.changeDuration_accepts_iff b name dur all
+
+/-- the guard itself: below one sample period, whatever the value (7/4 of a period passes) -/
+theorem sweep_duration_guard (d r : ℚ) : Gen.durSubSample d r = true ↔ d * r < 1 := by
+  simp [Gen.durSubSample]
+
+example : Gen.durSubSample (7 / 400) 100 = false ∧ Gen.durSubSample (1 / 200) 100 = true := by decide +kernel
 
 end BB.C17
